@@ -51,6 +51,21 @@ def posterior_native(vc):
     prior_var = np.diag(gp.cov(q, q, gp.cov_hyperpars))
     vc.ensures("variance_between_zero_and_prior", bool(np.all(np.diag(cov_c) >= -1e-8 * scale)
                                                        and np.all(sd_p ** 2 <= prior_var + 1e-8 * scale)))
+    # the state depends on the VALUES of the hyper-parameters only: the caller re-uses one array object, changing its contents in
+    # place between set_hyperparameters calls (what an optimiser working on one parameter buffer does)
+    work = np.array(theta, dtype=float) + 0.05 * rng.normal(size=len(theta))
+    gp.set_hyperparameters(work)
+    work += 0.15 * rng.normal(size=work.size)
+    gp.set_hyperparameters(work)
+    mu_w, cov_w = closed_form(gp, q)
+    mu_a, sd_a = gp(q)
+    mu_b, cov_b = gp.build_posterior(q)
+    sc_w = max(1.0, float(np.abs(cov_w).max()), float(np.abs(mu_w).max()))
+    vc.ensures("state_follows_an_array_updated_in_place", bool(
+        np.array_equal(np.asarray(gp.hyperpars), work)
+        and np.allclose(mu_a, mu_w, rtol=1e-7, atol=1e-6 * sc_w) and np.allclose(sd_a ** 2, np.abs(np.diag(cov_w)), rtol=1e-6, atol=1e-6 * sc_w)
+        and np.allclose(mu_b, mu_w, rtol=1e-7, atol=1e-6 * sc_w) and np.allclose(cov_b, cov_w, rtol=1e-6, atol=1e-6 * sc_w)))
+    gp.set_hyperparameters(np.array(theta, dtype=float))
     # order of the training points does not matter (skip kernels with one hyper-parameter per point)
     if "HN" not in pb["kname"] and n > 1:
         perm = rng.permutation(n)
@@ -96,6 +111,24 @@ def set_hyperparameters(vc):
     from contracts.gp_matrix import GpState
     st = GpState(vc)
     gp = st.regressor(fitted=False)
+    vc.call(gp, "set_hyperparameters", st.theta)
+    vc.ensures("covariance_is_kernel_plus_noise", M.mat_eq(vc.attr(gp, "K_xx"), st.C))
+    vc.ensures("factor_is_cholesky_of_kernel_plus_noise", M.mat_eq(vc.attr(gp, "L"), M.cholesky(st.C)))
+    vc.ensures("weights_solve_the_normal_equations", M.mat_eq(vc.attr(gp, "alpha"), st.Ci @ st.r))
+    vc.ensures("mean_vector_is_the_mean_function", M.mat_eq(vc.attr(gp, "mu"), st.mu))
+
+
+@contract("C02", "set_hyperparameters_again", native=False, replay_with="posterior_native")
+def set_hyperparameters_again(vc):
+    """the same on a regressor that was configured before with the SAME array object, whose contents the caller has changed in
+    place since (what an optimiser working on one parameter buffer does): every stored matrix is stale and must be rebuilt from the
+    values now in the array"""
+    from contracts.gp_matrix import GpState
+    st = GpState(vc)
+    n = st.n
+    gp = st.regressor(fitted=False, hyperpars=st.theta, mean_hyperpars=st.theta[st.mean_slice], cov_hyperpars=st.theta[st.cov_slice],
+                      K_xx=M.atom("K_stale", n, n, symmetric=True), L=M.atom("L_stale", n, n), alpha=M.atom("alpha_stale", n),
+                      mu=M.atom("mu_stale", n))
     vc.call(gp, "set_hyperparameters", st.theta)
     vc.ensures("covariance_is_kernel_plus_noise", M.mat_eq(vc.attr(gp, "K_xx"), st.C))
     vc.ensures("factor_is_cholesky_of_kernel_plus_noise", M.mat_eq(vc.attr(gp, "L"), M.cholesky(st.C)))
